@@ -192,6 +192,11 @@ def build(params, rng):
     u = np.sort(np.cos(np.pi * rng.uniform(0, 1, NPTS)))  # in (-1, 1)
     if I.fb == (-1.0, 1.0):
         I.x = smax * u
+        if not I.nonint:
+            # a few points much closer to both ends (the conditioning test decides which of them count): nodes of large rules
+            # sit there (GaussChebyshev(1000): 1 - |x| = 1.2e-6)
+            e = np.array([1e-4, 1e-5, 1e-6])
+            I.x = np.sort(np.concatenate([I.x, -1 + e, 1 - e]))
     elif kind == "Hyperbolic":
         I.x = (1e-3 + (1 - 2e-3) * (u + 1) / 2) / I.args["b"]
     elif kind == "Identity":
@@ -419,7 +424,18 @@ def check_map(ctx, subject, hookcls, tf, x, fb, gb, frac, gfrac, xscale, chunk, 
             libd[name] = _flat(getattr(tf, name)(x), n)
         if name not in libd:
             continue
-        any_decided |= _judge(ctx, name, subject, f"decided:{hookcls}:{name}", libd[name], est[o], tol[o] + _f64_noise(getattr(tf, name), x, libd[name]), scale[o], x, {"args": args_note})
+        if hookcls == "InverseRTransform":
+            # the wrapper evaluates through x = T.inverse(r): rounding of that intermediate is inherent to its architecture;
+            # measured from the float64 and long-double runs of the same code
+            slack = _f64_noise(getattr(tf, name), x, libd[name])
+        else:
+            # closed-form classes: only the inherent conditioning with respect to the (exact) float64 argument, power-law
+            # bound 100 eps |d_o| (1 + 10 |x| / distance to the nearest bound).  NOT the library's own float64-vs-long-double
+            # difference: a rewrite that cancels (e.g. deriv = 2m (transform(x) - rmin)/(1 - x^2)) must not widen its own tolerance
+            with np.errstate(all="ignore"):
+                slack = 100 * np.finfo(float).eps * np.abs(est[o]) * (1 + 10 * np.abs(x) / ell)
+                slack = np.where(np.isfinite(slack), slack, 0.0)
+        any_decided |= _judge(ctx, name, subject, f"decided:{hookcls}:{name}", libd[name], est[o], tol[o] + slack, scale[o], x, {"args": args_note})
     # sign of the first derivative agrees with the direction of the sample
     if "deriv" in libd:
         ctx.check("monotone", subject + ":deriv-sign", bool(np.all(np.sign(libd["deriv"]) == direction)), sig="deriv-sign-vs-direction", detail={"args": args_note})
